@@ -142,6 +142,8 @@ def session(bindir, rng, tag, tier):
                 t0 = time.time()
                 while time.time() - t0 < 2.6:
                     rd.wait_frames(rd.frame_count() + 1, 1)
+                # what the screen shows after a silence in which aircraft expired and nothing else happened
+                marks.append(rd.frame_count())
                 for i in range(rng.randrange(1, n_air + 1)):
                     srv.push(aircraft(rng, rx, rng.randrange(4), with_position=rng.random() < 0.5))
                     rd.wait_frames(rd.frame_count() + 3, 3)
